@@ -832,7 +832,11 @@ impl std::ops::SubAssign<&Self> for RowIdTreeMap {
                             // This generally won't be hit.
                             let mut set = RoaringBitmap::full();
                             set -= rhs_set;
-                            self.inner.insert(*fragment, RowIdSelection::Partial(set));
+                            if set.is_empty() {
+                                self.inner.remove(fragment);
+                            } else {
+                                self.inner.insert(*fragment, RowIdSelection::Partial(set));
+                            }
                         }
                     }
                 }
